@@ -29,15 +29,15 @@ CONFIG = {
     "C02": {},
     "C03": {"fuzz": [("FuzzReadMessage", 120), ("FuzzDecodeAVP", 90), ("FuzzDecodeGrouped", 60)]},
     "C04": {"fuzz": [("FuzzFraming", 120)]},
-    "C05": {},
+    "C05": {"race": "TestC05Interleaved"},
     "C06": {"race": "TestC06"},
     "C07": {"race": "TestC07Concurrent"},
     "C08": {"race": "TestC08"},
     "C09": {},
-    "C10": {},
-    "C11": {},
+    "C10": {"race": "TestC10Shared"},
+    "C11": {"race": "TestC11Shared"},
     "C12": {},
-    "C13": {},
+    "C13": {"race": "TestC13ServerConcurrent|TestC13ServerDWA"},
     "C14": {"race": "TestC14"},
     "C15": {"race": "TestC15"},
     "C16": {},
